@@ -56,6 +56,12 @@ def _worker(job):
     """Runs in a fresh process: one CrossHair analysis of one partition."""
     t0 = time.time()
     out = {"label": job.label, "fn": job.fn, "part": job.part, "nparts": job.nparts, "mode": job.mode}
+    deadline = float(os.environ.get("VF_DEADLINE_TS", "0") or 0)
+    if deadline and t0 > deadline and job.mode == "check":
+        # time budget of the tier used up before this partition could start: reported as
+        # not explored (inconclusive), never as confirmed
+        out.update({"skipped": True, "messages": [], "num_paths": 0, "queries": 0, "solver_s": 0.0, "cases": [], "hits": {}, "wall_s": 0.0})
+        return out
     try:
         os.environ["VF_MODE"] = "model"
         sys.setrecursionlimit(5000)
